@@ -199,5 +199,5 @@ def run(ctx):
     ctx.rule("taint.lossless-read", n_read, note=f"wire-read to field conversion chains inspected; {n_lossy} lossy steps seen")
     ctx.analysed.update({"programs": n_containers, "readers": n_read, "writers": n_write, "skipped_non_wire": skipped[:10]})
     ctx.assume("leaf codecs to_le_bytes/from_le_bytes, String::from_utf8, flate2 and std are trusted; byte equality for concrete values follows from layout agreement")
-    ctx.assume("hand-written built-in codecs other than strings and packed guids (UpdateMask, AuraMask, splines, ...) are named leaves here")
+    ctx.assume("the hand-written built-ins are named leaves in the layout comparison; their bodies are decided by leaf.codecs / builtin.siblings / leaf.wrappers here and by C13 (UpdateMask)")
     return "translation_validation", EXPLANATION, {}
